@@ -46,7 +46,7 @@ ASSUMPTIONS = [
     "a point's own rectangle is accepted in the envelope whether or not it covers the point",
     "fixed_width_band_ci is exercised only with supports spanning the whole curve (nb_points or all scores)",
 ]
-PROBES = ["caller_reuses_buffers", "interrupt_fired", "sampler_raise_fired", "rule_of_three_low", "rule_of_three_high", "identity_sampler", "recording_builtin", "builtin_string", "degenerate_sampler",
+PROBES = ["envelope_checked_easy", "caller_reuses_buffers", "interrupt_fired", "sampler_raise_fired", "rule_of_three_low", "rule_of_three_high", "identity_sampler", "recording_builtin", "builtin_string", "degenerate_sampler",
           "envelope_checked", "easy_source", "experimental_pointwise", "experimental_sjr", "experimental_fwb", "supplied_fnr",
           "supplied_fpr", "supplied_thresholds", "nb_points_given", "bca", "bc", "quantile", "envelope_widened"]
 
@@ -79,7 +79,7 @@ def generate(rnd, tier):
         for key in ("pos", "neg"):
             obj[key] = c11.gen_values(rnd, rnd.randint(280, 420), "unique", -3.0, 6.0)
         obj["dtype"] = "float64"
-    if rnd.random() < 0.8:
+    if rnd.random() < 0.7:
         obj["nb_easy_pos"] = obj["nb_easy_neg"] = 0
     ops = []
     fault_free = rnd.random() < 0.34
@@ -153,19 +153,23 @@ def generate(rnd, tier):
 # reference model
 
 
-def rule_of_three(p, ci, alpha, n):
-    """An observed rate of exactly 0 / 1 uses [0, 1 - alpha^(1/n)] / [alpha^(1/n), 1]."""
+def rule_of_three(p, ci, alpha, n, trigger_n=None):
+    """An observed rate of exactly 0 / 1 uses [0, 1 - alpha^(1/n)] / [alpha^(1/n), 1].
+    With trigger_n the trigger is the library's `p < 1/trigger_n`, `p > (trigger_n-1)/trigger_n` instead of
+    exact 0 / 1 (the two coincide when there are no easy samples; with easy samples both readings are admitted)."""
     out = np.array(ci, dtype=float, copy=True)
     lo = 1.0 - math.pow(alpha, 1.0 / n)
     hi = math.pow(alpha, 1.0 / n)
     n0 = n1 = 0
     for i, v in enumerate(p):
-        if v == 0.0:
-            out[i] = (0.0, lo)
-            n0 += 1
-        elif v == 1.0:
+        low = v == 0.0 if trigger_n is None else v < 1.0 / trigger_n
+        high = v == 1.0 if trigger_n is None else v > (trigger_n - 1) / trigger_n
+        if high:
             out[i] = (hi, 1.0)
             n1 += 1
+        elif low:
+            out[i] = (0.0, lo)
+            n0 += 1
     return out, n0, n1
 
 
@@ -373,7 +377,7 @@ def execute(scn, ctx):
                     if fn_name == "roc_with_ci" and not np.isnan(b).any() and (b.min() < 0.0 or b.max() > 1.0):
                         bad("band_in_unit_interval", f"{nm} leaves [0,1]: min {b.min()!r} max {b.max()!r}")
                 # ---- envelope refinement from the recorded resamples
-                if fn_name == "roc_with_ci" and shapes_ok and sampler is not None and not easy and not control_fault \
+                if fn_name == "roc_with_ci" and shapes_ok and sampler is not None and not control_fault \
                         and len(sampler.outputs) == int(cfg["nb_samples"]):
                     try:
                         reps = []
@@ -384,12 +388,24 @@ def execute(scn, ctx):
                         est = np.stack([np.asarray(src.fnr(src.threshold_at_fpr(fpr)), dtype=float),
                                         np.asarray(src.fpr(src.threshold_at_fnr(fnr)), dtype=float)], axis=0)
                         joint = M.ref_ci(theta, est, alpha, cfg["bootstrap_method"])  # (2, n, 2)
-                        fnr_ci, a0, a1 = rule_of_three(fnr, joint[0], alpha, len(src.pos))
-                        fpr_ci, b0, b1 = rule_of_three(fpr, joint[1], alpha, len(src.neg))
+                        # Without easy samples "rate exactly 0 or 1" and the library's trigger coincide and n is the class
+                        # size.  With easy samples the statement and the code diverge (which n? which trigger?): every
+                        # combination of (n = scored or all samples) x (trigger = exact 0/1 or the library's) is admitted.
+                        if not easy:
+                            readings = [(len(src.pos), len(src.neg), None, None)]
+                        else:
+                            readings = [(np_, nn_, tp_, tn_) for (np_, nn_) in ((len(src.pos), len(src.neg)), (src.nb_all_pos, src.nb_all_neg))
+                                        for (tp_, tn_) in ((None, None), (len(src.pos), len(src.neg)), (src.nb_all_pos, src.nb_all_neg))]
+                            probe("envelope_checked_easy")
+                        for (np_, nn_, tp_, tn_) in readings:
+                            fnr_ci, a0, a1 = rule_of_three(fnr, joint[0], alpha, np_, tp_)
+                            fpr_ci, b0, b1 = rule_of_three(fpr, joint[1], alpha, nn_, tn_)
+                            ok1, exp_fpr_band = band_matches(curve.fpr_ci, fnr, fnr_ci, fpr_ci)
+                            ok2, exp_fnr_band = band_matches(curve.fnr_ci, fpr, fpr_ci, fnr_ci)
+                            if ok1 and ok2:
+                                break
                         probe("rule_of_three_low", a0 + b0)
                         probe("rule_of_three_high", a1 + b1)
-                        ok1, exp_fpr_band = band_matches(curve.fpr_ci, fnr, fnr_ci, fpr_ci)
-                        ok2, exp_fnr_band = band_matches(curve.fnr_ci, fpr, fpr_ci, fnr_ci)
                         probe("envelope_checked")
                         if not M.close(exp_fpr_band, fpr_ci, 1e-12) or not M.close(exp_fnr_band, fnr_ci, 1e-12):
                             probe("envelope_widened")
